@@ -289,6 +289,8 @@ impl Report {
                 unlisted += 1;
                 let slug = if !cfg!(debug_assertions) {
                     format!("release-{}", slugify(cause))
+                } else if let Ok(prefix) = std::env::var("CLAPMC_REPLAY_PREFIX") {
+                    format!("{}{}", prefix, slugify(cause))
                 } else if std::env::var_os("CLAPMC_EVIDENCE_MERGE_KEY").is_some() {
                     format!("default-features-{}", slugify(cause))
                 } else {
